@@ -353,6 +353,11 @@ class Exec:
         self.ufs: Dict[str, Any] = {}
         self.notes: List[str] = []
         self.determinism_issues: List[Dict[str, Any]] = []
+        # (additive) where row MULTIPLICITY is abstracted away: LEFT-joined derived tables (kept as "some row matches") and the
+        # rows of scalar subqueries (kept as "some row").  MySQL raises error 1242 when a scalar subquery yields more than one
+        # row; property modules turn `scalar_subquery_rows` into at-most-one-row obligations (see contracts/C07.py).
+        self.multi_row_joins: List[Dict[str, Any]] = []
+        self.scalar_subquery_rows: List[Dict[str, Any]] = []
 
     # ---- entry points
     def new_state(self) -> St:
@@ -842,7 +847,12 @@ class Exec:
                         sc_on = Scope(st, aliases, outer)
                         conds.extend(truthy(self.ev(c, sc_on)) for c in on_conj)
                     continue
-                if sub.group_by or sub.having or sub.limit is not None:
+                # (additive) `LEFT JOIN [LATERAL] (SELECT .. LIMIT 1) AS d ON TRUE`: at most one derived row per left row and no ON
+                # filter after the limit, so "some row matches" (below) is exact; row-dependent columns are havocked as before
+                limit_one = (sub.limit is not None and kind == 'LEFT' and not sub.group_by and not sub.having and getattr(sub, 'offset', None) is None
+                             and isinstance(sub.limit, A.Lit) and sub.limit.value == 1 and sub.limit.kind == 'int'
+                             and all(isinstance(c_, A.Lit) and c_.value is True for c_ in on_conj))
+                if sub.group_by or sub.having or (sub.limit is not None and not limit_one):
                     raise Undecided('derived table %s is not a plain SELECT' % item.alias)
                 sc0 = Scope(st, aliases, outer)
                 in_aliases, in_cond, in_kv = self.bind_from(sub.from_, sub.where, sc0, st)
@@ -859,6 +869,9 @@ class Exec:
                     body = z3.And(in_cond, *[truthy(self.ev(c, sc_on)) for c in on_conj])
                     if in_kv:
                         present = z3.Exists(in_kv, body)
+                        # the join yields one result row per matching derived row; only "some row matches" is kept below
+                        if not limit_one:
+                            self.multi_row_joins.append({'alias': item.alias, 'kvars': list(in_kv), 'cond': body, 'line': getattr(sub, 'line', 0)})
                         # columns of an existentially chosen optional row: only constant columns keep a usable value
                         comp2 = {}
                         for k, v in computed.items():
@@ -1598,7 +1611,14 @@ class Exec:
                 raise Undecided('scalar subquery with GROUP BY')
             computed, order, gvars, present, recs = self.aggregate_select(sel, sc, sc.st)
             return computed[order[0]]
+        n_multi = len(self.multi_row_joins)
         aliases, cond, kv = self.bind_from(sel.from_, sel.where, sc, sc.st)
+        # recorded only (no effect on the value): the row sets whose cardinality decides whether MySQL answers or raises 1242
+        if sel.limit is None:
+            for m_ in self.multi_row_joins[n_multi:]:
+                self.scalar_subquery_rows.append({'line': getattr(sel, 'line', 0), 'what': 'derived table %s' % m_['alias'], 'kvars': m_['kvars'], 'cond': m_['cond'], 'pc': list(sc.st.pc)})
+            if kv:
+                self.scalar_subquery_rows.append({'line': getattr(sel, 'line', 0), 'what': 'rows', 'kvars': list(kv), 'cond': cond, 'pc': list(sc.st.pc)})
         val = self.ev(sel.columns[0].expr, Scope(sc.st, aliases, sc))
         if kv:
             # a row chosen existentially: value is that of some matching row, NULL if none matches
